@@ -82,6 +82,8 @@ func main() {
 		}
 	case "worker":
 		workerMain()
+	case "mkfixtures":
+		mkFixtures(os.Args[2])
 	default:
 		fmt.Fprintln(os.Stderr, "unknown subcommand")
 		os.Exit(2)
